@@ -87,6 +87,7 @@ func (l mapLoop) earlyExits() []*ssa.BasicBlock {
 
 func runC09(c *Ctx) {
 	runC09RequestCap(c)
+	runC09UsageScaledByK(c)
 	runC09Leftovers(c)
 	runC09Satisfied(c)
 	borrow(c, "O10", "C07", "O7", "createQueueResourceAttrs", "each resource is divided by the queues' quota, limit and over-quota weight FOR THAT RESOURCE: a weight taken from another resource hands the surplus of one resource out in the proportions configured for another")
@@ -729,7 +730,7 @@ func isCallNamedInstr(name string) func(ssa.Instruction) bool {
 func runC09Leftovers(c *Ctx) {
 	const pkg = "pkg/scheduler/plugins/proportion/resource_division"
 	n := 0
-	for _, name := range []string{"divideUpToFairShare", "divideRemainingResource"} {
+	for _, name := range []string{"divideUpToFairShare", "divideRemainingResource", "divideOverQuotaResource"} {
 		f := c.Anchor("O11", pkg, "", name)
 		if f == nil {
 			continue
@@ -754,6 +755,19 @@ func runC09Leftovers(c *Ctx) {
 					case *ssa.BinOp:
 						if (x.Op == token.SUB || x.Op == token.ADD) && amount[x.X] {
 							amount[v], changed = true, true
+						}
+					case *ssa.Call:
+						// what a division step hands back for the amount it was given (first argument → first result)
+						if cal := x.Call.StaticCallee(); cal != nil && len(x.Call.Args) > 0 && amount[x.Call.Args[0]] && strings.HasPrefix(cal.Name(), "divide") {
+							if _, isTuple := x.Type().(*types.Tuple); !isTuple {
+								amount[v], changed = true, true
+							}
+						}
+					case *ssa.Extract:
+						if cl, ok := x.Tuple.(*ssa.Call); ok && x.Index == 0 {
+							if cal := cl.Call.StaticCallee(); cal != nil && len(cl.Call.Args) > 0 && amount[cl.Call.Args[0]] && strings.HasPrefix(cal.Name(), "divide") {
+								amount[v], changed = true, true
+							}
 						}
 					}
 				}
@@ -870,4 +884,90 @@ func runC09RequestCap(c *Ctx) {
 			"the request is returned uncapped for a limit that is not the 'no limit' sentinel (e.g. limit 0): the queue is given a deserved share it can never use and its siblings get less surplus")
 	}
 	c.Floor("O13", "RET uncapped answers of GetRequestableShare", n, 1)
+}
+
+// runC09UsageScaledByK (O14): in the time-aware share weight the historical usage counts with the factor kValue
+// (weight + k·(weight − usage)): k = 0 switches the history off, a larger k punishes past usage harder. Decided: on the
+// way from GetUsage() to the share weight the usage passes a multiplication whose other operand derives from the
+// kValue parameter — in whatever algebraic form the expression is written. A usage that reaches the weight unscaled
+// makes k = 0 configurations divide by history anyway (and k ≠ 1 ones with the wrong strength).
+func runC09UsageScaledByK(c *Ctx) {
+	f := c.Anchor("O14", "pkg/scheduler/plugins/proportion/resource_division", "", "calcShareWeights")
+	if f == nil {
+		return
+	}
+	// values derived from the kValue parameter
+	var kParam *ssa.Parameter
+	for _, prm := range f.Params {
+		if b, ok := prm.Type().Underlying().(*types.Basic); ok && b.Info()&types.IsFloat != 0 {
+			kParam = prm
+		}
+	}
+	if kParam == nil {
+		c.Undec("O14", "ANCHOR", "calcShareWeights: float parameter (kValue)", f.Pos(), "not found")
+		return
+	}
+	fromK := map[ssa.Value]bool{kParam: true}
+	for changed := true; changed; {
+		changed = false
+		for _, b := range f.Blocks {
+			for _, in := range b.Instrs {
+				if bo, ok := in.(*ssa.BinOp); ok && !fromK[bo] && (fromK[bo.X] || fromK[bo.Y]) {
+					fromK[bo], changed = true, true
+				}
+			}
+		}
+	}
+	n := 0
+	for _, in := range instrsIn(f, func(in ssa.Instruction) bool {
+		cc, ok := in.(*ssa.Call)
+		return ok && calleeOf(cc) != nil && calleeOf(cc).Name() == "GetUsage"
+	}) {
+		n++
+		var bad ssa.Instruction
+		type st struct {
+			v      ssa.Value
+			scaled bool
+		}
+		seen := map[st]bool{}
+		var follow func(v ssa.Value, scaled bool)
+		follow = func(v ssa.Value, scaled bool) {
+			if seen[st{v, scaled}] || v.Referrers() == nil {
+				return
+			}
+			seen[st{v, scaled}] = true
+			for _, u := range *v.Referrers() {
+				switch x := u.(type) {
+				case *ssa.BinOp:
+					other := x.X
+					if other == v {
+						other = x.Y
+					}
+					follow(x, scaled || (x.Op == token.MUL && fromK[other]))
+				case *ssa.Phi:
+					follow(x, scaled)
+				case *ssa.Convert:
+					follow(x, scaled)
+				case *ssa.Call:
+					if cal := calleeOf(x); cal != nil && funcPkgPath(cal) == "math" {
+						follow(x, scaled) // math.Max / Min / Floor keep the quantity
+					} else if !scaled {
+						bad = x
+					}
+				case *ssa.MapUpdate, *ssa.Store, *ssa.Return:
+					if !scaled {
+						bad = u
+					}
+				}
+			}
+		}
+		follow(in.(*ssa.Call), false)
+		pos := instrPos(in)
+		if bad != nil {
+			pos = instrPos(bad)
+		}
+		c.Check(bad == nil, "O14", "DEP", funcKey(f)+": the historical usage enters the share weight scaled by kValue", pos, "every flow of GetUsage() into the weight passes a multiplication by a kValue-derived factor",
+			"the historical usage reaches the share weight without the kValue factor: with kValue 0 (history switched off) the surplus is still divided by past usage, a sole unsatisfied queue with usage ≥ its weight gets nothing while surplus stays undistributed")
+	}
+	c.Floor("O14", "DEP usage reads of calcShareWeights", n, 1)
 }
